@@ -193,6 +193,38 @@ Definition render_crashing_thread (pi : proc_in) : outcome (option (nat * C05.Mo
   do r <- process_threads pi; json_crashing_thread (fst r) (snd r).
 End Process.
 
+(* ------------------------------------------------------------------ BitFlipDetails::confidence: the NEARBY_REGISTER table *)
+(* process_state.rs 329-332, reached from check_for_bitflips -> try_bit_flips -> calculate_heuristics for every candidate address:
+     if self.nearby_registers > 0 {
+         let nearby = std::cmp::min(self.nearby_registers as usize, NEARBY_REGISTER.len()) - 1;
+         values.push(NEARBY_REGISTER[nearby]);
+     }
+   nearby_registers: u32 (one count per valid register of the exception context within 4096 bytes of the candidate).
+   Ret None: no entry pushed; Ret (Some i): NEARBY_REGISTER[i]; the subtraction is a usize `-`, the index is bounds-checked. *)
+Definition NEARBY_REGISTER_LEN : Z := 4.
+Definition nearby_index (p : profile) (n : Z) : outcome (option Z) :=
+  if 0 <? n then
+    do i <- chk_sub p 64 PANIC_ARITH (Z.min n NEARBY_REGISTER_LEN) 1;
+    if (0 <=? i) && (i <? NEARBY_REGISTER_LEN) then Ret (Some i) else Panic PANIC_INDEX
+  else Ret None.
+(* the seeded variant (seeded/C03-7): subtract first, clamp to the table LENGTH afterwards *)
+Definition nearby_index_clamp_len (p : profile) (n : Z) : outcome (option Z) :=
+  if 0 <? n then
+    do d <- chk_sub p 64 PANIC_ARITH n 1;
+    let i := Z.min d NEARBY_REGISTER_LEN in
+    if (0 <=? i) && (i <? NEARBY_REGISTER_LEN) then Ret (Some i) else Panic PANIC_INDEX
+  else Ret None.
+(* calculate_heuristics' count: `if should_calculate_nearby_registers && self.address.0.abs_diff(addr) <= NEARBY_REGISTER_DISTANCE
+   { self.details.nearby_registers += 1 }` over context.valid_registers(); should_calculate = address > LOW_ADDRESS_CUTOFF *)
+Definition NEARBY_REGISTER_DISTANCE : Z := 4096.
+Definition LOW_ADDRESS_CUTOFF : Z := 8192.
+Definition nearby_count (p : profile) (address : Z) (regs : list Z) : outcome Z :=
+  fold_left (fun acc r => do n <- acc;
+                          if (LOW_ADDRESS_CUTOFF <? address) && (Z.abs (address - r) <=? NEARBY_REGISTER_DISTANCE)
+                          then chk_add p 32 PANIC_ARITH n 1 else Ret n) regs (Ret 0).
+Definition nearby_site (p : profile) (address : Z) (regs : list Z) : outcome (Z * option Z) :=
+  do n <- nearby_count p address regs; do i <- nearby_index p n; Ret (n, i).
+
 (* all frames of a ProcessState, and the largest stack memory any thread can be given *)
 Definition total_frames (outs : list thread_out) : nat := fold_right (fun o n => (length (o_frames o) + n)%nat) 0%nat outs.
 Definition own_stacks (pi : proc_in) : list region :=
